@@ -841,7 +841,12 @@ class AdapterLookupBase:
             if not extendors:
                 continue
 
-            components = byorder[order]
+            try:
+                components = byorder[order]
+            except IndexError:
+                # Another thread just removed the last registration of
+                # this order and pruned the list.
+                continue
             result = _lookup(components, required, extendors, name, 0,
                              order)
             if result is not None:
@@ -875,7 +880,11 @@ class AdapterLookupBase:
             extendors = registry._v_lookup._extendors.get(provided)
             if not extendors:
                 continue
-            components = byorder[order]
+            try:
+                components = byorder[order]
+            except IndexError:
+                # Pruned by another thread; see _uncached_lookup.
+                continue
             _lookupAll(components, required, extendors, result, 0, order)
 
         self._subscribe(*required)
@@ -901,7 +910,13 @@ class AdapterLookupBase:
                 if extendors is None:
                     continue
 
-            _subscriptions(byorder[order], required, extendors, '',
+            try:
+                components = byorder[order]
+            except IndexError:
+                # Pruned by another thread; see _uncached_lookup.
+                continue
+
+            _subscriptions(components, required, extendors, '',
                            result, 0, order)
 
         self._subscribe(*required)
